@@ -98,7 +98,7 @@ func c12Mutate(r *vrng, bases []*c12Base, k int) []amlEdit {
 		n := len(cur)
 		idx := c12Index(cur)
 		var e amlEdit
-		switch r.intn(10) {
+		switch r.intn(13) {
 		case 0: // truncation
 			e = amlEdit{kind: 't', off: c12Pos(r, idx) + r.intn(2)}
 			if r.chance(30) {
@@ -182,6 +182,47 @@ func c12Mutate(r *vrng, bases []*c12Base, k int) []amlEdit {
 				d[i] = c12Byte(r)
 			}
 			e = amlEdit{kind: 'i', off: c12Pos(r, idx), data: d}
+		case 10, 11: // shrink an enclosing PkgLength so that a nested package ends beyond it (both inside the table)
+			if len(idx.lens) < 2 {
+				e = amlEdit{kind: 's', off: c12Pos(r, idx), n: int(c12Byte(r))}
+				break
+			}
+			oi := r.intn(len(idx.lens) - 1)
+			p, q := idx.lens[oi], idx.lens[oi+1+r.intn(len(idx.lens)-oi-1)]
+			if q-p > 0x3c || cur[p]>>6 != 0 { // keep it a one-byte length: end somewhere between the nested length byte and a few bytes after
+				q = p + 1 + r.intn(8)
+			}
+			nv := q - p + r.intn(4)
+			if nv > 0x3f {
+				nv = 0x3f
+			}
+			e = amlEdit{kind: 's', off: p, n: nv}
+		case 12: // a name segment whose first 1-3 bytes are illegal and whose tail is the head of an existing name
+			var segs []int
+			for i := 0; i+4 < n; i++ {
+				if (cur[i] == 0x2e || cur[i] == 0x5c || cur[i] == 0x5e || cur[i] == 0x2f) && (cur[i+1] == '_' || (cur[i+1] >= 'A' && cur[i+1] <= 'Z')) {
+					segs = append(segs, i+1)
+				}
+			}
+			if len(segs) == 0 {
+				e = amlEdit{kind: 's', off: c12Pos(r, idx), n: int(c12Byte(r))}
+				break
+			}
+			p := segs[r.intn(len(segs))]
+			if r.chance(30) && p+8 <= n {
+				p += 4
+			}
+			k := 1 + r.intn(3)
+			heads := [][]byte{cur[p : p+4], []byte("_SB_"), []byte("_GPE"), []byte("_PR_"), []byte("_TZ_"), []byte("_SI_")}
+			h := heads[r.intn(len(heads))]
+			seg := make([]byte, 4)
+			for i := 0; i < k; i++ {
+				seg[i] = []byte{'1', '9', 'a', 'z', 0x00, 0x01, 0x2f, 0x2e, 0x40, 0x5b, 0x60}[r.intn(11)]
+			}
+			copy(seg[k:], h[:4-k])
+			es = append(es, amlEdit{kind: 'd', off: p, n: 4})
+			cur = amlApplyEdits(cur, es[len(es)-1:])
+			e = amlEdit{kind: 'i', off: p, data: seg}
 		default: // duplicate a segment in place
 			a := c12Pos(r, idx)
 			l := 1 + r.intn(32)
@@ -307,9 +348,12 @@ func (g *c12Gen) data(depth int) []byte {
 			s = append(s, byte(0x20+r.intn(0x5f)))
 		}
 		return append(s, 0)
-	case 1: // buffer
+	case 1: // buffer (the size expression is sometimes itself a Buffer or a Package)
 		n := r.intn(6)
 		body := []byte{0x0a, byte(n + r.intn(2))}
+		if depth > 0 && r.chance(25) {
+			body = g.data(depth - 1)
+		}
 		for i := 0; i < n; i++ {
 			body = append(body, byte(r.next()))
 		}
@@ -657,6 +701,15 @@ func TestVerifC12(t *testing.T) {
 		"method-no-flags":       "1405" + "4d544830" + "4d544830",
 		"device-self-caret":     "5b8206" + "5e41414141",
 		"device-in-own-child":   "5b8210" + "41414141" + "5b8209" + "2e4141414142424242",
+		// seeded C12-C: outer Buffer PkgLength shrunk so that the Buffer nested in its size expression ends after
+		// the outer package but inside the table (ByteList length pkgEnd-offset underflows)
+		"inner-pkg-beyond-outer": "084141414111041108" + "0a010000000000" + "084242424200",
+		"inner-pkg-beyond-outer-2": "084141414111051205" + "020a010a02" + "0a03" + "084242424200",
+		// seeded C12-D: a name segment that starts with 1-3 illegal bytes whose tail is a prefix of a sibling's name
+		"nameseg-illegal-1": "082e315f534258585858" + "00",
+		"nameseg-illegal-3": "082e3132335f58585858" + "00",
+		"nameseg-illegal-2": "082e01025f5458585858" + "00",
+		"nameseg-illegal-scope": "10" + "0b" + "5c2e315f5342" + "5f53495f" + "0858585858" + "00",
 		"mutual-reloc":          "5b820a" + "2e4242424241414141" + "5b820a" + "2e4141414142424242",
 	}
 	var wk []string
